@@ -20,7 +20,7 @@ import types
 import z3
 
 from . import sym as S
-from .sym import SBool, SConst, SInt, SList, SVal, Sym, Unsupported, NativeOnSym, INTERN
+from .sym import SBool, SConst, SInt, SList, SVal, Sym, Unsupported, NativeOnSym, INTERN, OptField
 
 REPO = os.environ.get("VERIF_REPO", "/repo")
 
@@ -409,7 +409,16 @@ class Engine(object):
             n = m.eval(v.length, model_completion=True).as_long()
             return [self.model_value(m, v.get(z3.IntVal(i))) for i in range(min(n, 12))]
         if isinstance(v, dict):
-            return {k: self.model_value(m, x) for k, x in v.items()}
+            out = {}
+            for k, x in v.items():
+                if isinstance(x, OptField):
+                    pres = x.present if isinstance(x.present, bool) else bool(
+                        z3.is_true(m.eval(x.present, model_completion=True)))
+                    if pres:
+                        out[k] = self.model_value(m, x.value)
+                else:
+                    out[k] = self.model_value(m, x)
+            return out
         if isinstance(v, (list, tuple)):
             return [self.model_value(m, x) for x in v]
         return v
@@ -543,6 +552,8 @@ class Engine(object):
         if isinstance(a, dict) and isinstance(b, dict):
             if a is b:
                 return True
+            self.resolve_opt(a)
+            self.resolve_opt(b)
             if set(a.keys()) != set(b.keys()):
                 return False
             return self._and([self.sym_eq(a[k], b[k]) for k in a])
@@ -575,6 +586,18 @@ class Engine(object):
             return False
         return z3.Or(zs)
 
+    def resolve_opt(self, d):
+        """Decide (by forking) the presence of every optional field of a dict."""
+        for k in list(d.keys()):
+            val = d[k]
+            if isinstance(val, OptField):
+                pz = val.present if not isinstance(val.present, bool) else z3.BoolVal(val.present)
+                if self.branch(pz):
+                    d[k] = val.value
+                else:
+                    del d[k]
+        return d
+
     def wrap_bool(self, z):
         if z is True or z is False:
             return z
@@ -601,6 +624,18 @@ class Engine(object):
             return self.call(fn, [x], {})
         if isinstance(container, (dict, type({}.keys()), type({}.values()))):
             if isinstance(container, dict):
+                if any(isinstance(val, OptField) for val in container.values()):
+                    if isinstance(x, SConst):
+                        x = self.concretize(x)
+                    if not isinstance(x, Sym):
+                        try:
+                            val = container.get(x, _MISSING)
+                        except TypeError:
+                            val = _MISSING
+                        if isinstance(val, OptField):
+                            return self.wrap_bool(val.present)
+                        return val is not _MISSING
+                    self.resolve_opt(container)
                 keys = list(container.keys())
             else:
                 keys = list(container)
@@ -1086,7 +1121,10 @@ class Engine(object):
 
     def iterate(self, it):
         """Concrete iteration order of a concrete iterable (elements may be symbolic)."""
-        if isinstance(it, (list, tuple, str, dict, range, enumerate, zip, map, filter, reversed)):
+        if isinstance(it, dict):
+            self.resolve_opt(it)
+            return list(it)
+        if isinstance(it, (list, tuple, str, range, enumerate, zip, map, filter, reversed)):
             return list(it)
         if isinstance(it, (set, frozenset)):
             raise Unsupported("iteration over a set (order is hash-seed dependent)")
@@ -1368,7 +1406,52 @@ class Engine(object):
         except NativeOnSym:
             return self.wrap_bool(self.zbool_of(self.sym_eq(a, b)))
 
+    def const_lt(self, a, b):
+        """z3 Bool: a < b for finite-domain constants (python ordering of the candidate values)."""
+        da = a.dom if isinstance(a, SConst) else (a,)
+        db = b.dom if isinstance(b, SConst) else (b,)
+        if da is None or db is None:
+            raise Unsupported("ordering of open-domain constants")
+        az = a.z if isinstance(a, SConst) else z3.IntVal(INTERN.id_of(a))
+        bz = b.z if isinstance(b, SConst) else z3.IntVal(INTERN.id_of(b))
+        cases = []
+        for x in da:
+            for y in db:
+                try:
+                    lt = x < y
+                except TypeError as e:
+                    raise Raised(TypeError, e.args)
+                if lt:
+                    cases.append(z3.And(az == INTERN.id_of(x), bz == INTERN.id_of(y)))
+        return z3.Or(cases) if cases else z3.BoolVal(False)
+
+    path_lt_const = const_lt
+
+    def key_lt(self, a, b):
+        """z3 Bool / bool: a < b for sort keys (constants, ints, tuples thereof)."""
+        if isinstance(a, tuple) and isinstance(b, tuple):
+            if not a or not b:
+                return len(a) < len(b)
+            head_lt = self.key_lt(a[0], b[0])
+            head_eq = self.sym_eq(a[0], b[0])
+            rest = self.key_lt(a[1:], b[1:])
+            return z3.Or(self.zbool_of(head_lt), z3.And(self.zbool_of(head_eq), self.zbool_of(rest)))
+        if isinstance(a, SConst) or isinstance(b, SConst):
+            return self.const_lt(a, b)
+        if isinstance(a, (SInt, SBool)) or isinstance(b, (SInt, SBool)):
+            return self.zint(a) < self.zint(b)
+        if isinstance(a, Sym) or isinstance(b, Sym):
+            raise Unsupported("ordering of %r and %r" % (a, b))
+        try:
+            return a < b
+        except TypeError as e:
+            raise Raised(TypeError, e.args)
+
     def identity(self, a, b):
+        if isinstance(a, SBool) and (b is True or b is False or b is None):
+            return False if b is None else self.wrap_bool(a.z if b else z3.Not(a.z))
+        if isinstance(b, SBool) and (a is True or a is False or a is None):
+            return False if a is None else self.wrap_bool(b.z if a else z3.Not(b.z))
         if isinstance(a, SConst) and (b is None or isinstance(b, bool)):
             return self.wrap_bool(self.zbool_of(self.sym_eq(a, b)))
         if isinstance(b, SConst) and (a is None or isinstance(a, bool)):
@@ -1421,7 +1504,14 @@ class Engine(object):
                 raise Unsupported("dict lookup with symbolic key %r" % (k,))
             try:
                 if k in c:
-                    return c[k]
+                    val = c[k]
+                    if isinstance(val, OptField):
+                        if self.branch(val.present if not isinstance(val.present, bool) else z3.BoolVal(val.present)):
+                            c[k] = val.value
+                            return val.value
+                        del c[k]
+                        raise Raised(KeyError, (k,))
+                    return val
             except TypeError as e:
                 raise Raised(TypeError, e.args)
             raise Raised(KeyError, (k,))
